@@ -290,7 +290,21 @@ fn kernels_on(rng: &mut Rng, t: &mut Shards, dt: &DataType, max_len: usize) {
             let db: &dyn Datum = if b_scalar { sb = Scalar::new(b.clone()); &sb } else { &b };
             arrow_select::zip::zip(&m, da, db)
         });
-        finish(json!({"op":"zip","type":ty,"fam":fam,"zw":zw,"nulltoks":nulltoks,"mask":mm,"a":tok::strs(&ar),"as":a_scalar,"b":tok::strs(&br),"bs":b_scalar}), o, t);
+        // physical facts about view scalars (used only to scope a known finding): is the value
+        // stored out of line (> 12 bytes) or inline
+        let first_len = |x: &ArrayRef| -> i64 {
+            use arrow_array::cast::AsArray;
+            if x.is_empty() || x.is_null(0) { return -1 }
+            match x.data_type() {
+                DataType::Utf8View => x.as_string_view().value(0).len() as i64,
+                DataType::BinaryView => x.as_binary_view().value(0).len() as i64,
+                _ => -1,
+            }
+        };
+        let (al, bl) = (first_len(&a), first_len(&b));
+        finish(json!({"op":"zip","type":ty,"fam":fam,"zw":zw,"nulltoks":nulltoks,"mask":mm,"a":tok::strs(&ar),"as":a_scalar,"b":tok::strs(&br),"bs":b_scalar,
+                      "a_long": al > 12, "b_inline": (0..=12).contains(&bl),
+                      "a_nbuf": a.to_data().buffers().len().saturating_sub(1), "b_nbuf": b.to_data().buffers().len().saturating_sub(1)}), o, t);
     }
 
     // merge_n: indices say which array the next row comes from
